@@ -69,6 +69,12 @@ def build(run):
                           exclusions={"duplicate-author-ids": "DUPLICATE_AUTHOR_IDS"}, covers=["no author ids reachable", "two author ids reachable"],
                           claim="every node has an id; author ids unchanged; all ids pairwise distinct")], timeout=900)
 
+    crate_d, lemma_d = lift_lemma(run)
+    run.kani(crate_d, [lemma_d], timeout=600)
+
+    crate_e, lemma_e = mms_lemma(run)
+    run.kani(crate_e, [lemma_e], timeout=600)
+
     # ---- K-C09-c: the navigation position never becomes the illegal sentinel id (shared with C11: one rule application) ---------------
     from checks import C11
     crate_n, lemmas_n = C11.kernel(run, "c09nav")
@@ -80,3 +86,153 @@ def build(run):
         return bad, {"script": "set_navigation_node(id, offset 1); MoveTo7 (marker never set); get_navigation_mathml_id", "results": res[1:]}
     ln["api"] = api_sentinel
     run.kani(crate_n, [ln], timeout=900)
+
+
+# ======================================================================================================================
+# D-C09-d: when canonicalize_mrows_in_mrow hands back the single child in place of its mrow, a token's author id stays on the token
+LIFT_SHIM = r"""
+pub trait LocalPart { fn local_part(&self) -> &str; }
+impl LocalPart for str { fn local_part(&self) -> &str { self } }
+#[derive(Clone, Copy)] pub struct Attribute { code: u16 }
+impl Attribute {
+    fn name(&self) -> &'static str { "id" }
+    fn value(&self) -> &'static str { if self.code == dom::id_code("r") { "r" } else if self.code == dom::id_code("s") { "s" } else { assert!(self.code == dom::id_code("a"), "id outside the model's table"); "a" } }
+}
+impl<'a> dom::Element<'a> {
+    fn attributes(&self) -> Vec<Attribute> { let mut v = Vec::new(); if let Some(code) = self.attribute("id") { v.push(Attribute { code }); } v }
+    fn remove_attribute(&self, nm: &str) { if nm == "id" { unsafe { dom::IDCODE[self.id as usize] = 0; } } }
+    fn attribute_value(&self, nm: &str) -> Option<&'static str> { if nm == "id" { self.attribute("id").map(|code| Attribute { code }.value()) } else { None } }
+}
+const CHANGED_ATTR: &str = "data-changed";
+type Result<T> = core::result::Result<T, ()>;
+pub struct StackInfo<'a> { mrow: Element<'a>, is_operand: bool }
+impl<'a> StackInfo<'a> {
+    REMOVE_LAST
+}
+#[allow(unused_mut)]
+fn tail<'a>(mut top_of_stack: StackInfo<'a>, is_ok_to_merge_child: bool, saved_mrow_attrs: Vec<Attribute>) -> Result<Element<'a>> {
+    SEGMENT
+}
+HARNESS(lifted_single_child_keeps_its_author_id, 16) {
+    let mrow = dom::new_node(5);                                              // the synthesized mrow on top of the parse stack
+    let n = 1 + sym::below(2);
+    let tok = dom::new_node(0); mrow.append_child_id(tok.id);
+    if n == 2 { let t2 = dom::new_node(0); mrow.append_child_id(t2.id); }
+    let tok_has_id = sym::bool();
+    if tok_has_id { tok.set_attribute_value("id", "a"); }
+    let mut saved = Vec::new();
+    let mrow_has_id = sym::bool();
+    if mrow_has_id { saved.push(Attribute { code: dom::id_code("r") }); }     // the attributes of the author's mrow (saved on entry)
+    let ok = sym::bool();
+    let r = tail(StackInfo { mrow, is_operand: true }, ok, saved).unwrap();
+    cover!(r.id == tok.id && tok_has_id && mrow_has_id, "token with an author id replaces an mrow with an author id reachable");
+    cover!(r.id == mrow.id, "mrow kept reachable");
+    if tok_has_id { assert!(tok.attribute("id") == Some(dom::id_code("a")), "the author id of a token is overwritten by the id of the mrow it replaces"); }
+    if mrow_has_id && r.id == mrow.id { assert!(r.attribute("id") == Some(dom::id_code("r")), "the mrow lost its author id"); }
+}
+"""
+
+
+def api_lift(vals=None, out=None):
+    import re
+    res = mcprobe([("mathml", "<math><mrow id='r'><mi id='a'>x</mi><mspace width='1em'/></mrow></math>")])
+    ok = res[0][0] == "OK" and re.search(r"<mi[^>]*id='a'[^>]*>x</mi>", res[0][1])
+    return not ok, {"script": "set_mathml(<mrow id='r'><mi id='a'>x</mi><mspace/></mrow>): the mi must keep id='a'", "result": res[0]}
+
+
+def lift_lemma(run):
+    c = slicer.Source.get("src/canonicalize.rs")
+    f = c.find("impl CanonicalizeContext", "fn canonicalize_mrows_in_mrow")
+    first = c.find_stmt("let mut parsed_mrow = top_of_stack . mrow", within=f)
+    seg = slicer.Span(c, first.start, f.end - 1, "canonicalize_mrows_in_mrow::tail")      # f ends with the function's closing brace
+    seg_text = seg.text
+    rm = c.find("impl StackInfo", "fn remove_last_operand_from_mrow")
+    aa = c.find("fn add_attrs")
+    run.uses(seg, rm, aa)
+    crate = kani_run.Crate("c09lift", prelude.PHF_MOCK + prelude.MINIDOM + aa.text + LIFT_SHIM.replace("REMOVE_LAST", rm.text).replace("SEGMENT", seg_text), native_deps=prelude.PHF_NATIVE_DEP)
+    run.bound("D-C09-d", "the statements of canonicalize_mrows_in_mrow after the parse stack is reduced (from `let mut parsed_mrow`), with add_attrs and remove_last_operand_from_mrow; "
+              "top-of-stack mrow with 1 or 2 token children; the token and the author's mrow each with or without an author id")
+    run.assume("model DOM (MINIDOM) extended with an attribute list holding only the id attribute")
+    return crate, dict(id="D-C09-d.lifted_single_child_keeps_its_author_id", harness="lifted_single_child_keeps_its_author_id", api=lambda v, o: api_lift(),
+                       role=lambda v, o: "token-id-overwritten-by-mrow-id",
+                       covers=["token with an author id replaces an mrow with an author id reachable", "mrow kept reachable"],
+                       claim="a token's author id survives when the token replaces its single-child mrow; an mrow that stays keeps its id")
+
+
+# ======================================================================================================================
+# D-C09-e: convert_to_mmultiscripts (empty-base script absorbed into a neighbour) does not put the base's id on the new mmultiscripts as well
+MMS_SHIM = r"""
+#[allow(unused_mut, unused_variables)]
+fn tail<'a>(mrow_children: &mut Vec<ChildOfElement<'a>>, i: usize, i_base: usize, base: Element<'a>,
+            mut prescripts: Vec<ChildOfElement<'a>>, mut postscripts: Vec<ChildOfElement<'a>>, i_postscript: usize) -> Element<'a> {
+    SEGMENT
+    script
+}
+fn with_id(kind: u8, has: bool, id: &str) -> Element<'static> { let e = dom::new_node(kind); if has { e.set_attribute_value("id", id); } e }
+HARNESS(mmultiscripts_does_not_duplicate_the_base_id, 16) {
+    // the three shapes convert_to_mmultiscripts produces its tail state from:
+    //   0: [x, msup(empty, 2)]            postscript, base is a token            (i = 1, i_base = 0)
+    //   1: [msup(empty, 2), x]            prescript                              (i = 0, i_base = 1)
+    //   2: [msub(x, 1), msup(empty, 2)]   postscript, base pulled out of a script (i = 1, i_base = 0)
+    let shape = sym::below(3);
+    let x = with_id(0, sym::bool(), "a");
+    let sup = with_id(8, sym::bool(), "s");                                   // the script element with the empty base (model kind msub stands for any script)
+    let two = dom::new_node(6);
+    let none1 = dom::new_node(1);
+    let mut children: Vec<ChildOfElement> = Vec::new();
+    let mut pre: Vec<ChildOfElement> = Vec::new();
+    let mut post: Vec<ChildOfElement> = Vec::new();
+    let script;
+    if shape == 0 {
+        children.push(ChildOfElement::Element(x)); children.push(ChildOfElement::Element(sup));
+        post.push(ChildOfElement::Element(none1)); post.push(ChildOfElement::Element(two));
+        script = tail(&mut children, 1, 0, x, pre, post, 2);
+    } else if shape == 1 {
+        children.push(ChildOfElement::Element(sup)); children.push(ChildOfElement::Element(x));
+        pre.push(ChildOfElement::Element(none1)); pre.push(ChildOfElement::Element(two));
+        script = tail(&mut children, 0, 1, x, pre, post, 2);
+    } else {
+        let sub = with_id(8, sym::bool(), "r"); let one = dom::new_node(6); let none2 = dom::new_node(1);
+        children.push(ChildOfElement::Element(sub)); children.push(ChildOfElement::Element(sup));
+        post.push(ChildOfElement::Element(one)); post.push(ChildOfElement::Element(none2)); post.push(ChildOfElement::Element(none1)); post.push(ChildOfElement::Element(two));
+        script = tail(&mut children, 1, 0, x, pre, post, 2);
+    }
+    cover!(shape == 0 && x.attribute("id").is_some(), "postscript onto a token with an author id reachable");
+    cover!(shape == 1 && sup.attribute("id").is_some(), "prescript reachable");
+    cover!(shape == 2, "base pulled out of a script reachable");
+    assert!(children.len() == 1 && as_element(children[0]).id == script.id, "the mrow does not end up with the one mmultiscripts");
+    assert!(name(&script) == "mmultiscripts" && as_element(script.children()[0]).id == x.id, "wrong base");
+    let sid = script.attribute("id");
+    if sid.is_some() { assert!(sid != x.attribute("id"), "the new mmultiscripts and its base carry the same id"); }
+}
+"""
+
+
+def api_mms(vals=None, out=None):
+    import re
+    res = mcprobe([("mathml", "<math><mrow><mi id='a'>x</mi><msup><mrow/><mn>2</mn></msup><mo>=</mo><mi>y</mi></mrow></math>"),
+                   ("mathml", "<math><mrow><mi id='a'>x</mi><msup><mrow/><mn>2</mn></msup></mrow></math>")])
+    bad = []
+    for r in res:
+        ids = re.findall(r"id='([^']*)'", r[1]) if r[0] == "OK" else []
+        if r[0] != "OK" or len(ids) != len(set(ids)):
+            bad.append(ids)
+    return bool(bad), {"script": "set_mathml(x with id='a' followed by a superscript with an empty base)", "results": res}
+
+
+def mms_lemma(run):
+    c = slicer.Source.get("src/canonicalize.rs")
+    f = c.find("fn clean_mathml", "fn convert_to_mmultiscripts")
+    a = c.find_stmt("let i_multiscript =", within=f)
+    b = c.find_stmt("mrow_children . drain (", within=f)
+    seg = slicer.Span(c, a.start, b.end, "convert_to_mmultiscripts::assemble")
+    aa = c.find("fn add_attrs")
+    run.uses(seg, aa)
+    crate = kani_run.Crate("c09mms", prelude.PHF_MOCK + prelude.MINIDOM + aa.text + LIFT_SHIM[:LIFT_SHIM.index("const CHANGED_ATTR")] + MMS_SHIM.replace("SEGMENT", seg.text), native_deps=prelude.PHF_NATIVE_DEP)
+    run.bound("D-C09-e", "the statements of convert_to_mmultiscripts that assemble the mmultiscripts (from `let i_multiscript` to the drain of the absorbed siblings) with add_attrs; "
+              "three shapes (postscript onto a token, prescript, postscript onto the base of a script); every element with or without an author id")
+    run.assume("model DOM (MINIDOM) extended with an attribute list holding only the id attribute; the scan that finds base and scripts (choose_base_of_mmultiscripts, add_to_scripts) is replaced by the three states it produces")
+    return crate, dict(id="D-C09-e.mmultiscripts_does_not_duplicate_the_base_id", harness="mmultiscripts_does_not_duplicate_the_base_id", api=lambda v, o: api_mms(),
+                       role=lambda v, o: "base-id-copied-to-mmultiscripts",
+                       covers=["postscript onto a token with an author id reachable", "prescript reachable", "base pulled out of a script reachable"],
+                       claim="the id of the new mmultiscripts differs from the id its base keeps")
